@@ -81,7 +81,91 @@ type nfSlot struct {
 	reached    map[string]bool
 	listed     []string // keys this slot has asked for (generator only)
 	holdNext   bool                     // park the server handler of the next listen right after its ack write
-	ackParked  map[string]chan struct{} // handlers parked there: "m" / "r<i>" -> release channel
+	ackParked  map[string]chan struct{} // handlers parked there: "m" / "r<i>" / "L<n>" -> release channel
+	live       map[string]bool               // listens opened here that were granted something and not ended: "m", "L<n>"
+	xl         map[string]context.CancelFunc // raw listens opened by xlisten: "L<n>" -> cancel
+	grant      map[string][]string           // live listens (also "r<i>") -> what the ack granted: "t" "p" "r" "u<j>"
+	order      []string                      // … in the order they were acknowledged
+}
+
+func nfAckGrant(ack string) []string {
+	f := strings.Fields(ack)
+	var g []string
+	if len(f) < 2 || f[0] != "ack" {
+		return nil
+	}
+	if f[1] != "-" {
+		for _, ch := range f[1] {
+			g = append(g, string(ch))
+		}
+	}
+	for _, u := range f[2:] {
+		if strings.HasPrefix(u, "u") {
+			g = append(g, u)
+		}
+	}
+	return g
+}
+
+// opened records an acknowledged listen; it reports whether it shares a grant with a live one.
+func (sl *nfSlot) opened(name, ack string) string {
+	g := nfAckGrant(ack)
+	if len(g) == 0 {
+		return ""
+	}
+	overlap := false
+	for _, other := range sl.order {
+		for _, a := range sl.grant[other] {
+			for _, b := range g {
+				if a == b {
+					overlap = true
+				}
+			}
+		}
+	}
+	sl.grant[name] = g
+	sl.order = append(sl.order, name)
+	if overlap {
+		return "listen-overlap"
+	}
+	return ""
+}
+
+// endedListen forgets a listen that ended; it reports whether a live one shares a grant with it, and
+// whether that one is newer or older.
+func (sl *nfSlot) endedListen(name string) string {
+	g, ok := sl.grant[name]
+	if !ok {
+		return ""
+	}
+	tag := ""
+	seen := false
+	for _, other := range sl.order {
+		if other == name {
+			seen = true
+			continue
+		}
+		for _, a := range sl.grant[other] {
+			for _, b := range g {
+				if a == b {
+					if seen {
+						tag = "end-older-of-overlap"
+					} else if tag == "" {
+						tag = "end-newer-of-overlap"
+					}
+				}
+			}
+		}
+	}
+	delete(sl.grant, name)
+	var rest []string
+	for _, o := range sl.order {
+		if o != name {
+			rest = append(rest, o)
+		}
+	}
+	sl.order = rest
+	return tag
 }
 
 type nfWorld struct {
@@ -99,6 +183,7 @@ type nfWorld struct {
 	content [2]int
 	descCtr int
 	ended   bool
+	xtag    string // an extra tag for the record of the op that just ran
 }
 
 // nfWindow: the features of one set are w<lo>..w<hi>; every effective change makes a content never seen before.
@@ -675,7 +760,8 @@ func (w *nfWorld) apply(toks []string) (obs string) {
 		sid, _ := strconv.Atoi(toks[2])
 		sl := &nfSlot{idx: i, sid: sid, modern: toks[3] == "modern", mask: toks[4], ids: map[string]string{},
 			rsubs: map[int]bool{}, held: map[string]*nfHeld{}, reached: map[string]bool{}, ackWant: "m",
-			ackParked: map[string]chan struct{}{}}
+			ackParked: map[string]chan struct{}{}, live: map[string]bool{}, xl: map[string]context.CancelFunc{},
+			grant: map[string][]string{}}
 		w.newClient(sl)
 		ct, st := NewInMemoryTransports()
 		ss, err := w.s.Connect(context.Background(), st, nil)
@@ -733,11 +819,113 @@ func (w *nfWorld) apply(toks []string) (obs string) {
 		w.mu.Lock()
 		a := sl.lastAck
 		sl.holdNext = false
+		sl.live["m"] = a != "noack" && a != "ack -"
+		w.xtag = sl.opened("m", a)
 		if sl.ackParked["m"] != nil {
 			a += " parked"
 		}
 		w.mu.Unlock()
 		return w.withStray(a)
+	case "xlisten":
+		// xlisten c<i> L<n> <mask|-> [u<j>] [hold]: a further subscriptions/listen of the session, opened
+		// below the public API (ClientSession opens one list-changed listen per session and one per URI)
+		sl, ok := slot(1)
+		if !ok || len(toks) < 4 || len(toks) > 6 {
+			return "bad-op"
+		}
+		name, mask, rest := toks[2], toks[3], toks[4:]
+		uri := -1
+		if len(rest) > 0 && strings.HasPrefix(rest[0], "u") {
+			n, err := strconv.Atoi(rest[0][1:])
+			if err != nil {
+				return "bad-op"
+			}
+			uri, rest = n, rest[1:]
+		}
+		hold := len(rest) == 1 && rest[0] == "hold"
+		if len(rest) > 1 || (len(rest) == 1 && !hold) {
+			return "bad-op"
+		}
+		if name != "m" {
+			if n, err := strconv.Atoi(strings.TrimPrefix(name, "L")); err != nil || !strings.HasPrefix(name, "L") || n < 0 {
+				return "bad-op"
+			}
+		}
+		subs := &NotificationSubscriptions{
+			ToolsListChanged:     strings.Contains(mask, "t"),
+			PromptsListChanged:   strings.Contains(mask, "p"),
+			ResourcesListChanged: strings.Contains(mask, "r"),
+		}
+		anyKind := subs.ToolsListChanged || subs.PromptsListChanged || subs.ResourcesListChanged
+		if sl == nil || !sl.connected || !sl.modern || name == "m" || (anyKind && uri >= 0) || sl.live[name] {
+			return "refused"
+		}
+		w.mu.Lock()
+		held := sl.ackParked[name]
+		w.mu.Unlock()
+		if held != nil {
+			return "refused" // a handler of that name (granted nothing) is still held after its ack write
+		}
+		if uri >= 0 {
+			subs.ResourceSubscriptions = []string{nfURI(uri)}
+		}
+		w.mu.Lock()
+		sl.ackWant = name
+		sl.lastAck = "noack"
+		sl.holdNext = hold
+		w.mu.Unlock()
+		lctx, cancel := context.WithCancel(context.Background())
+		if err := sl.cs.subscriptionsListen(lctx, &SubscriptionsListenParams{Notifications: subs}); err != nil {
+			cancel()
+			return "err"
+		}
+		synctest.Wait()
+		w.mu.Lock()
+		a := sl.lastAck
+		sl.holdNext = false
+		if a != "noack" && a != "ack -" {
+			sl.live[name] = true
+			sl.xl[name] = cancel
+			w.xtag = sl.opened(name, a)
+		} else {
+			defer cancel()
+		}
+		if sl.ackParked[name] != nil {
+			a += " parked"
+		}
+		w.mu.Unlock()
+		return w.withStray(a)
+	case "xend":
+		// xend c<i> <m|L<n>>: the client cancels that listen; its handler on the server ends
+		sl, ok := slot(1)
+		if !ok || len(toks) != 3 {
+			return "bad-op"
+		}
+		name := toks[2]
+		if name != "m" {
+			if _, err := strconv.Atoi(strings.TrimPrefix(name, "L")); err != nil || !strings.HasPrefix(name, "L") {
+				return "bad-op"
+			}
+		}
+		if sl == nil || !sl.connected || !sl.modern {
+			return "refused"
+		}
+		w.mu.Lock()
+		p := sl.ackParked[name]
+		w.mu.Unlock()
+		if p != nil || !sl.live[name] {
+			return "refused"
+		}
+		if name == "m" {
+			sl.cs.listenCancel()
+		} else {
+			sl.xl[name]()
+			delete(sl.xl, name)
+		}
+		synctest.Wait()
+		delete(sl.live, name)
+		w.xtag = sl.endedListen(name)
+		return w.withStray("ok")
 	case "subscribe", "unsubscribe":
 		sl, ok := slot(1)
 		hold := toks[0] == "subscribe" && len(toks) == 4 && toks[3] == "hold"
@@ -770,6 +958,7 @@ func (w *nfWorld) apply(toks []string) (obs string) {
 					sl.rsubs[u] = true
 					w.mu.Lock()
 					obs = sl.lastAck
+					w.xtag = sl.opened(name, obs)
 					sl.holdNext = false
 					if sl.ackParked[name] != nil {
 						obs += " parked"
@@ -787,6 +976,9 @@ func (w *nfWorld) apply(toks []string) (obs string) {
 			err = sl.cs.Unsubscribe(context.Background(), &UnsubscribeParams{URI: nfURI(u)})
 			synctest.Wait()
 			delete(sl.rsubs, u)
+			if sl.modern {
+				w.xtag = sl.endedListen(name)
+			}
 		}
 		if err != nil {
 			obs = "err"
@@ -797,6 +989,12 @@ func (w *nfWorld) apply(toks []string) (obs string) {
 		if !ok || sl == nil || !sl.connected || len(sl.held) > 0 || len(sl.ackParked) > 0 {
 			return "refused"
 		}
+		// the raw listens are outstanding calls of the connection: like ClientSession.Close does for the
+		// listens it opened itself, cancel them first (jsonrpc2's Close waits for outstanding calls)
+		for _, cancel := range sl.xl {
+			cancel()
+		}
+		synctest.Wait()
 		sl.cs.Close()
 		synctest.Wait()
 		sl.ss.Wait()
@@ -1021,6 +1219,10 @@ func (w *nfWorld) cleanup() {
 		case <-sl.connDone:
 		default:
 		}
+		for _, cancel := range sl.xl {
+			cancel()
+		}
+		synctest.Wait()
 		if sl.cs != nil {
 			sl.cs.Close()
 		}
@@ -1042,7 +1244,7 @@ func nfTag(toks []string, obs string) string {
 		return "change-" + toks[2]
 	case "connect":
 		return "connect-" + toks[3]
-	case "listen", "subscribe":
+	case "listen", "subscribe", "xlisten":
 		if strings.HasSuffix(obs, " parked") {
 			return toks[0] + "-hold"
 		}
@@ -1110,7 +1312,18 @@ func nfRunCase(t *testing.T, hook bool, emit nfEmit, next func(w *nfWorld, step 
 				}
 			}
 			inWindow := w.s != nil && len(w.ackWindows()) > 0
+			w.xtag = ""
 			obs := w.apply(toks)
+			if w.xtag != "" {
+				xt := w.xtag
+				w.xtag = ""
+				if inWindow {
+					emit(op, obs, nfTag(toks, obs), xt, "ackwin-"+toks[0])
+				} else {
+					emit(op, obs, nfTag(toks, obs), xt)
+				}
+				continue
+			}
 			if inWindow && toks[0] != "advance" {
 				// the op ran while a listen handler was held right after its ack write
 				emit(op, obs, nfTag(toks, obs), "ackwin-"+toks[0])
@@ -1187,7 +1400,7 @@ type nfGen struct {
 	nextSid int
 	tail    []string
 	hook    string
-	focus   int // 0 mixed, 1 debounce window, 2 cache races, 3 subscriptions, 4 windows after an ack write
+	focus   int // 0 mixed, 1 debounce window, 2 cache races, 3 subscriptions, 4 windows after an ack write, 5 overlapping listens of one session
 	steps   int
 }
 
@@ -1269,6 +1482,13 @@ func (g *nfGen) body(w *nfWorld) string {
 		for u := range w.slots[i].rsubs {
 			subscribed = append(subscribed, u)
 		}
+		for _, gr := range w.slots[i].grant {
+			for _, x := range gr {
+				if x == "u0" || x == "u1" {
+					subscribed = append(subscribed, int(x[1]-'0'))
+				}
+			}
+		}
 	}
 	sort.Ints(subscribed)
 	if g.steps < 3 && g.rng.Intn(10) < 7 {
@@ -1279,7 +1499,7 @@ func (g *nfGen) body(w *nfWorld) string {
 	if len(conn)+len(gated) == 0 && len(free) > 0 && g.rng.Intn(10) < 6 {
 		g.nextSid++
 		gen := g.pick("legacy", "modern", "modern")
-		if g.focus == 4 {
+		if g.focus == 4 || g.focus == 5 {
 			gen = "modern"
 		}
 		return fmt.Sprintf("connect c%d %d %s %s", free[g.rng.Intn(len(free))], g.nextSid, gen, g.pick("tpr", "tpr", "t", "tp", "r", "-"))
@@ -1315,6 +1535,81 @@ func (g *nfGen) body(w *nfWorld) string {
 			if strings.HasPrefix(f[1], "r") {
 				return "rupdated u" + f[1][1:]
 			}
+			if sl := w.slots[int(f[0][1]-'0')]; sl != nil {
+				for _, gr := range sl.grant[f[1]] {
+					if strings.HasPrefix(gr, "u") {
+						return "rupdated " + gr
+					}
+				}
+			}
+		}
+	}
+	// further listens of a connected 2026-07-28 session, overlapping the live ones in kinds or in a URI,
+	// and the end of any live listen (connect-time, per-URI, raw), in any order
+	xp := 7
+	if g.focus == 5 {
+		xp = 40
+	} else if g.focus == 3 {
+		xp = 15
+	}
+	var modernConn []int
+	for _, i := range conn {
+		if w.slots[i].modern {
+			modernConn = append(modernConn, i)
+		}
+	}
+	if len(modernConn) > 0 && g.rng.Intn(100) < xp {
+		i := modernConn[g.rng.Intn(len(modernConn))]
+		sl := w.slots[i]
+		var ends []string // listens that can be ended now
+		for _, n := range sl.order {
+			w.mu.Lock()
+			p := sl.ackParked[n]
+			w.mu.Unlock()
+			if p == nil {
+				ends = append(ends, n)
+			}
+		}
+		if len(ends) > 0 && (len(sl.order) >= 3 || g.rng.Intn(100) < 40) {
+			n := ends[g.rng.Intn(len(ends))]
+			if g.rng.Intn(4) > 0 {
+				g.tail = append(g.tail, "tables")
+			}
+			if strings.HasPrefix(n, "r") {
+				return fmt.Sprintf("unsubscribe c%d u%s", i, n[1:])
+			}
+			return fmt.Sprintf("xend c%d %s", i, n)
+		}
+		var free []string
+		for _, n := range []string{"L1", "L2", "L3"} {
+			w.mu.Lock()
+			p := sl.ackParked[n]
+			w.mu.Unlock()
+			if !sl.live[n] && p == nil {
+				free = append(free, n)
+			}
+		}
+		if len(free) > 0 {
+			n := free[g.rng.Intn(len(free))]
+			// mostly something a live listen of the session was granted too
+			var live []string
+			for _, o := range sl.order {
+				live = append(live, sl.grant[o]...)
+			}
+			what := g.pick("t", "tp", "tpr", "p", "r", "u0", "u1", "pr")
+			if len(live) > 0 && g.rng.Intn(4) > 0 {
+				what = live[g.rng.Intn(len(live))]
+				if !strings.HasPrefix(what, "u") && g.rng.Intn(2) == 0 {
+					what = g.pick("t", "tp", "tpr", "pr", "r", "p")
+				}
+			}
+			if g.rng.Intn(3) == 0 {
+				g.tail = append(g.tail, "tables")
+			}
+			if strings.HasPrefix(what, "u") {
+				return fmt.Sprintf("xlisten c%d %s - %s%s", i, n, what, hold())
+			}
+			return fmt.Sprintf("xlisten c%d %s %s%s", i, n, what, hold())
 		}
 	}
 	for tries := 0; tries < 20; tries++ {
@@ -1418,7 +1713,7 @@ func (g *nfGen) body(w *nfWorld) string {
 	return changeOp()
 }
 
-const nfScriptedShapes = 10
+const nfScriptedShapes = 16
 
 // nfScripted: the shapes the property is about, placed at random offsets (so that quick runs always reach them).
 func nfScripted(rng *rand.Rand, hook string, variant int) []string {
@@ -1477,6 +1772,52 @@ func nfScripted(rng *rand.Rand, hook string, variant int) []string {
 			ops = append(ops, "cbrun prompts")
 		}
 		ops = append(ops, "close c0", "ackdone c0 m", "close c0", "tables")
+	case 10: // two listens of one session opted in to the same kind; the OLDER one (connect-time) ends: a client replacing its stream
+		ops = append(ops, "change tools add", "connect c0 1 modern t", "listen c0", "xlisten c0 L1 t", "tables", "change tools add", fmt.Sprintf("advance %d", d))
+		if hook == "hook1" {
+			ops = append(ops, "cbrun tools")
+		}
+		ops = append(ops, "xend c0 m", "tables", "change tools add", fmt.Sprintf("advance %d", d))
+		if hook == "hook1" {
+			ops = append(ops, "cbrun tools")
+		}
+		ops = append(ops, "xend c0 L1", "tables", "change tools add", fmt.Sprintf("advance %d", d))
+		if hook == "hook1" {
+			ops = append(ops, "cbrun tools")
+		}
+	case 11: // … the NEWER one ends: the older, still live listen must go on being served
+		ops = append(ops, "change tools add", "change prompts add", "connect c0 1 modern tp", "listen c0", "xlisten c0 L1 tpr", "tables", "xend c0 L1", "tables",
+			"change tools add", "change prompts add", fmt.Sprintf("advance %d", d))
+		if hook == "hook1" {
+			ops = append(ops, "cbrun tools", "cbrun prompts")
+		}
+	case 12: // two listens on one URI (ClientSession.Subscribe and a raw one); the older ends, then the newer
+		ops = append(ops, "connect c0 1 modern -", "connect c1 2 legacy -", "subscribe c1 u0", "subscribe c0 u0", "xlisten c0 L1 - u0", "tables", "rupdated u0",
+			"unsubscribe c0 u0", "tables", "rupdated u0", "xend c0 L1", "tables", "rupdated u0")
+	case 13: // … the newer ends first
+		ops = append(ops, "connect c0 1 modern -", "subscribe c0 u1", "xlisten c0 L2 - u1", "rupdated u1", "xend c0 L2", "tables", "rupdated u1",
+			"list c0 read:1 n", "rupdated u1", "list c0 read:1 n", "unsubscribe c0 u1", "tables", "rupdated u1")
+	case 14: // three streams over the same kinds, ended middle, newest, oldest, a burst after each end; a legacy bystander
+		ops = append(ops, "change tools add", "change prompts add", "connect c1 2 legacy -", "connect c0 1 modern tp", "listen c0", "xlisten c0 L1 tp", "xlisten c0 L2 t",
+			"xlisten c0 L3 - u0", "tables", "xend c0 L1", "tables", "change tools add", "change prompts add", fmt.Sprintf("advance %d", d))
+		if hook == "hook1" {
+			ops = append(ops, "cbrun tools", "cbrun prompts")
+		}
+		ops = append(ops, "xend c0 L2", "tables", "change tools add", fmt.Sprintf("advance %d", d))
+		if hook == "hook1" {
+			ops = append(ops, "cbrun tools")
+		}
+		ops = append(ops, "rupdated u0", "xend c0 m", "tables", "change tools add", "change prompts add", fmt.Sprintf("advance %d", d))
+		if hook == "hook1" {
+			ops = append(ops, "cbrun tools", "cbrun prompts")
+		}
+		ops = append(ops, "rupdated u0", "close c0", "tables")
+	case 15: // the older listen ends inside the window that follows the acknowledgement write of the newer one
+		ops = append(ops, "change tools add", "connect c0 1 modern t", "listen c0", "xlisten c0 L1 t hold", "xend c0 m", "tables", "change tools add", fmt.Sprintf("advance %d", d))
+		if hook == "hook1" {
+			ops = append(ops, "cbrun tools")
+		}
+		ops = append(ops, "ackdone c0 L1", "tables", "xlisten c0 L2 - u1 hold", "subscribe c0 u1", "rupdated u1", "unsubscribe c0 u1", "rupdated u1", "ackdone c0 L2", "xend c0 L2", "tables", "rupdated u1")
 	case 5: // capability inferred at listen time: nothing to list yet
 		ops = append(ops, "connect c0 1 modern tpr", "listen c0", "tables", "change prompts add", fmt.Sprintf("advance %d", d+1))
 		if hook == "hook1" {
@@ -1552,7 +1893,7 @@ func TestVerifNotify(t *testing.T) {
 	n := verifN(3000, 40000)
 	for c := 0; c < n; c++ {
 		rng := verifRng(int64(1000 + c))
-		g := &nfGen{rng: rng, n: 8 + rng.Intn(20), hook: hookTok, focus: c % 5}
+		g := &nfGen{rng: rng, n: 8 + rng.Intn(20), hook: hookTok, focus: c % 6}
 		emit := func(op, obs string, tags ...string) { out.line(fmt.Sprintf("g%d", c), op, obs, tags...) }
 		drained := false
 		nfRunCase(t, hook, emit, func(w *nfWorld, step int) string {
